@@ -7,6 +7,15 @@
 // pred_test.go. Layer "match": WitnessCondition.Match of every condition tree
 // up to the permitted nesting against every stub context, compared with the
 // same predicate's condition evaluator.
+//
+// Extension "identity" (ext_ident_test.go): chains in which several contexts
+// share one script hash (copies of the entry script and of a dynamic script
+// loaded with System.Runtime.LoadScript, a contract calling itself, the same
+// contract twice in a chain) and chains whose entry context is a deployed
+// contract's verify method (Verification trigger). The predicate's entry
+// relation and calling contract are positions in the real chain, so an
+// implementation that decides them by comparing hashes disagrees there.
+// Every level also asks for the zero account (never witnessed).
 package c15
 
 import (
@@ -148,6 +157,14 @@ func makePlans(r *vk.Run, chains []chain) []plan {
 	}
 	plans = append(plans, plan{Name: "zero-caller", Cfgs: singleRulePlanCfgs([]cfg{{Scope: R}}, rulesOf(zc)), Chains: all, Zero: true})
 	if r.Thorough() {
+		// the two big thorough plans run on every base chain and on the identity
+		// extension's chains of up to 2 steps (their 3-step chains get the four plans above)
+		var heavy []int
+		for i, c := range chains {
+			if c.family() == "base" || len(c.Steps) <= 2 {
+				heavy = append(heavy, i)
+			}
+		}
 		// T1: every scope combination containing Rules x the lists its other bits
 		// read x every single rule.
 		var scopes []cfg
@@ -169,7 +186,7 @@ func makePlans(r *vk.Run, chains []chain) []plan {
 				}
 			}
 		}
-		plans = append(plans, plan{Name: "scopes-x-rules-1", Cfgs: singleRulePlanCfgs(scopes, single), Chains: all})
+		plans = append(plans, plan{Name: "scopes-x-rules-1", Cfgs: singleRulePlanCfgs(scopes, single), Chains: heavy})
 		// T3: every single rule before and after each rule of a small set.
 		k := rulesOf([]*scond{{Op: "bool", B: true}, {Op: "entry"}, {Op: "hash", Sym: "A"}, {Op: "group", Sym: "G1"}})
 		var p []cfg
@@ -178,7 +195,7 @@ func makePlans(r *vk.Run, chains []chain) []plan {
 				p = append(p, cfg{Scope: R, Rules: []srule{a, b}}, cfg{Scope: R, Rules: []srule{b, a}})
 			}
 		}
-		plans = append(plans, plan{Name: "rules-2-mixed", Cfgs: p, Chains: all})
+		plans = append(plans, plan{Name: "rules-2-mixed", Cfgs: p, Chains: heavy})
 	}
 	return plans
 }
@@ -205,6 +222,10 @@ func TestCheck(t *testing.T) {
 
 	// ---- layer 1 ----
 	chains := allChains(3)
+	nBase := len(chains)
+	ext := identityChains(r.Thorough()) // ext_ident_test.go: contexts sharing a script hash, deployed contract as entry
+	sort.SliceStable(ext, func(i, j int) bool { return len(ext[i].Steps) < len(ext[j].Steps) })
+	chains = append(chains, ext...)
 	nw := r.Workers()
 	pool := make(chan *world, nw)
 	var first *world
@@ -241,6 +262,14 @@ func TestCheck(t *testing.T) {
 	var mu sync.Mutex
 	perClass := map[string]int{}
 	planInfo := map[string]any{}
+	// per family of chains: invocations, evaluations, distinct situations, outcome classes
+	type famStat struct {
+		inv, evals, tagged int
+		sits, classes      map[string]struct{}
+		cells              map[string]struct{} // chain@level with a hash shared by two contexts -> tags
+		chains             map[string]struct{}
+	}
+	fams := map[string]*famStat{}
 	totalCfgs := 0
 	for _, p := range plans {
 		nb := (len(p.Cfgs) + slots - 1) / slots
@@ -279,6 +308,27 @@ func TestCheck(t *testing.T) {
 			for k := range st.Classes {
 				r.Outcome(k)
 			}
+			mu.Lock()
+			fs := fams[b.Chain.family()]
+			if fs == nil {
+				fs = &famStat{sits: map[string]struct{}{}, classes: map[string]struct{}{}, cells: map[string]struct{}{}, chains: map[string]struct{}{}}
+				fams[b.Chain.family()] = fs
+			}
+			fs.inv++
+			fs.evals += st.Evals
+			fs.chains[b.Chain.String()] = struct{}{}
+			for k := range st.Contexts {
+				fs.sits[k] = struct{}{}
+			}
+			for k := range st.Classes {
+				fs.classes[k] = struct{}{}
+			}
+			for i := range b.Frames {
+				if t := identityTags(b.Frames, i); t != "" && st.Evals > 0 && (!b.Chain.NoRS || i == len(b.Frames)-1) {
+					fs.cells[fmt.Sprintf("%s@%d%s", b.Chain, i, t)] = struct{}{}
+				}
+			}
+			mu.Unlock()
 			r.Sample(fmt.Sprintf("plan %s chain %s: %d checks (%d true, %d false, %d undecided) for signers %s ...", p.Name, b.Chain, st.Evals, st.True, st.False, st.Undecided, cfgs[0]))
 			if bi == 0 {
 				for i, f := range b.Frames {
@@ -336,6 +386,22 @@ func TestCheck(t *testing.T) {
 	cov["vm_undecided_error_without_readstates"] = int(undecided.Get())
 	cov["vm_continue_after_error_validations"] = int(contRuns.Get())
 	cov["vm_chain_variants"] = len(chains)
+	cov["vm_chain_variants_base"] = nBase
+	famInfo := map[string]any{}
+	tagCells := map[string]int{}
+	for name, fs := range fams {
+		famInfo[name] = map[string]any{"chain_variants": len(fs.chains), "invocations": fs.inv, "checkwitness_evaluations": fs.evals,
+			"distinct_check_situations": len(fs.sits), "distinct_outcome_classes": len(fs.classes), "levels_sharing_a_hash_with_another_context": len(fs.cells)}
+		for c := range fs.cells {
+			for _, t := range []string{"+cur=entry", "+caller=entry", "+cur=caller", "+repeated"} {
+				if strings.Contains(c, t) {
+					tagCells[t[1:]]++
+				}
+			}
+		}
+	}
+	cov["vm_families"] = famInfo
+	cov["vm_levels_by_hash_coincidence"] = tagCells
 	cov["vm_chain_levels"] = cells.Len()
 	cov["vm_signer_configs"] = totalCfgs
 	cov["vm_distinct_check_situations"] = kinds
@@ -348,6 +414,8 @@ func TestCheck(t *testing.T) {
 		"without ReadStates only non-error results are compared with the predicate (the property does not say what a check that cannot read the manifest must do)",
 		"up to 15 configurations share one transaction as 15 different signers (plus a fixed signer whose account is contract B); signers are not validated (test invocation), so lists of a scope whose bit is unset can be present",
 		"chains: entry + up to 3 steps over {A, B(G1), C(G1,G2), dynamic script, GAS.transfer->A|B|C}; a native transfer below a dynamic script is impossible (read-only flags) and is not part of the space",
+		"identity extension: chains with steps S (LoadScript of a byte-identical copy of the entry script, bytes taken from System.Runtime.GetScriptContainer) and T (copies of one shared dynamic script), and chains whose entry context is verify(prog) of a deployed contract W(G2)/V(no group) under the Verification trigger (blockchain.InitVerificationContext; the invocation script only pushes the program and executes no check); the predicate's entry relation and calling contract are chain POSITIONS (level <= 1, level-1), never hash comparisons; a level marker account asked first at every level proves which body of a polymorphic script ran",
+		"a dynamic script byte-identical to a deployed contract's script does not have the contract's hash (contract hash = H(sender, NEF checksum, name)), so no context pair of that kind shares a hash; not enumerated",
 		"key-to-account mapping (verification script hash of a public key) and manifest group signature checks are trusted",
 	})
 }
